@@ -10,6 +10,7 @@ import (
 	"encoding/hex"
 	"errors"
 	"fmt"
+	"hash/crc32"
 	"math/rand"
 	"os"
 	"path/filepath"
@@ -20,6 +21,7 @@ import (
 
 	"github.com/lindb/lindb/kv/table"
 	"github.com/lindb/lindb/kv/version"
+	"github.com/lindb/lindb/pkg/bufioutil"
 
 	"github.com/lindb/lindb/zzverif/internal/core"
 	"github.com/lindb/lindb/zzverif/internal/extract"
@@ -262,6 +264,17 @@ func (e *env) buildTable(fno int, items []item) *built {
 						c.Fail("rejected-stream-write-accepted", fmt.Sprintf("Write after Prepare(%d) of an out-of-order key returned %d", it.k, n))
 					}
 				}
+				if e.r.Intn(3) == 0 {
+					sum := sw.CRC32CheckSum()
+					c.Op("crc", fmt.Sprintf("crc=%08x", sum))
+					want := uint32(0)
+					if !rejected {
+						want = crc32.ChecksumIEEE(it.bytes())
+					}
+					if sum != want {
+						c.Fail("stream-checksum-wrong", fmt.Sprintf("CRC32CheckSum()=%08x after writing the chunks of key %d, IEEE crc32 of them is %08x", sum, it.k, want))
+					}
+				}
 				if err := sw.Commit(); err != nil {
 					out = "err"
 					return
@@ -451,6 +464,48 @@ func (e *env) probeTable(t *built, r table.Reader) {
 	}
 	c.Op(fmt.Sprintf("iter %d", t.fno), showSeq(got))
 	checkSameSeq(c, "iter", got, t.entries)
+	// two iterators of the same reader alive at once, stepped in a random interleaving
+	if len(t.entries) <= 30 && e.r.Intn(3) == 0 {
+		n := 2*len(t.entries) + 3
+		sched := make([]byte, 1+e.r.Intn(n))
+		for i := range sched {
+			sched[i] = "ab"[e.r.Intn(2)]
+		}
+		its := [2]table.Iterator{r.Iterator(), r.Iterator()}
+		var pos [2]int
+		var toks []string
+		bad := ""
+		p, _ := guard(func() {
+			for _, ch := range sched {
+				w := int(ch - 'a')
+				if !its[w].HasNext() {
+					toks = append(toks, string(ch)+":-")
+					if pos[w] < len(t.entries) && bad == "" {
+						bad = fmt.Sprintf("iterator %c ends after %d of %d entries", ch, pos[w], len(t.entries))
+					}
+					continue
+				}
+				k := its[w].Key()
+				v := its[w].Value()
+				toks = append(toks, fmt.Sprintf("%c:%d=%s", ch, k, showVal(v)))
+				if bad == "" && (pos[w] >= len(t.entries) || t.entries[pos[w]].k != k || !bytes.Equal(t.entries[pos[w]].v, v)) {
+					bad = fmt.Sprintf("iterator %c delivers %d=%s at its position %d", ch, k, showVal(v), pos[w])
+				}
+				pos[w]++
+			}
+		})
+		op := fmt.Sprintf("iter2 %d %s", t.fno, sched)
+		if p {
+			c.Op(op, "panic")
+			c.Fail("panic", "interleaved iterators panicked")
+		} else {
+			c.Op(op, strings.Join(toks, " "))
+			c.Branch("two-iterators-interleaved")
+			if bad != "" {
+				c.Fail("iterators-interfere", bad+" while another iterator of the same reader is in use")
+			}
+		}
+	}
 }
 
 func checkSameSeq(c *core.Ctx, what string, got, want []kv) {
@@ -1039,6 +1094,21 @@ func (e *env) caseVersion() {
 		}
 	}
 	keys = append(keys, 0, 4294967295, r.Uint32())
+	e.lookupAll(snap, ts, lvOf, keys, false)
+}
+
+// lookupAll runs FindFiles / Load / FindReaders (and their unopenable-table variants) for the keys
+// on the version of snap, which holds the tables ts, lvOf[l] being those of level l. With old=true
+// (a snapshot taken before later edit logs were committed) a missing file is reported under the key
+// snapshot-version-lost-files.
+func (e *env) lookupAll(snap version.Snapshot, ts []*built, lvOf [][]*built, keys []uint32, old bool) {
+	c, r := e.c, e.r
+	miss := func(key string) string {
+		if old {
+			return "snapshot-version-lost-files"
+		}
+		return key
+	}
 	for _, k := range keys {
 		// FindFiles
 		var found []*version.FileMeta
@@ -1107,18 +1177,30 @@ func (e *env) caseVersion() {
 					want = append(want, showVal(en.v))
 					holders++
 					if !inFound[t.fno] {
-						c.Fail("findfiles-misses-file", fmt.Sprintf("key %d lives in file %d [%d,%d] but FindFiles does not return it", k, t.fno, t.min, t.max))
+						c.Fail(miss("findfiles-misses-file"), fmt.Sprintf("key %d lives in file %d [%d,%d] but FindFiles does not return it", k, t.fno, t.min, t.max))
 					}
 				}
 			}
 		}
 		sort.Strings(want)
 		if strings.Join(want, " ") != strings.Join(ss, " ") {
-			c.Fail("load-misses-values", fmt.Sprintf("Load(%d) delivered [%s], the files hold [%s]", k, strings.Join(ss, " "), strings.Join(want, " ")))
+			c.Fail(miss("load-misses-values"), fmt.Sprintf("Load(%d) delivered [%s], the files hold [%s]", k, strings.Join(ss, " "), strings.Join(want, " ")))
 		}
 		if holders >= 2 {
 			c.NonTrivial()
 			c.Branch("key-in-several-files")
+		}
+		for l := 1; l < len(lvOf); l++ { // upper levels are NOT assumed to hold disjoint ranges
+			cover := 0
+			for _, t := range lvOf[l] {
+				if inFound[t.fno] {
+					cover++
+				}
+			}
+			if cover >= 2 {
+				c.Branch("overlapping-ranges-in-upper-level")
+				break
+			}
 		}
 		// (the fault-injected variants follow after the plain ones, see below)
 		// FindReaders: a reader for every file found
@@ -1156,7 +1238,7 @@ func (e *env) caseVersion() {
 							ok = ok || n == t.fno
 						}
 						if !ok {
-							c.Fail("findreaders-misses-file", fmt.Sprintf("key %d lives in file %d but FindReaders gives no reader for it", k, t.fno))
+							c.Fail(miss("findreaders-misses-file"), fmt.Sprintf("key %d lives in file %d but FindReaders gives no reader for it", k, t.fno))
 						}
 					}
 				}
@@ -1265,6 +1347,267 @@ func (e *env) caseVersion() {
 			}
 		}
 	}
+}
+
+// caseVersionSet: the version is built through the real StoreVersionSet (CommitFamilyEditLog =
+// Clone + apply + install); snapshots taken before a compaction-shaped log (delete level-L files,
+// add their merge at level L+1) and a move log must keep answering from the files they had.
+func (e *env) caseVersionSet() {
+	c, r := e.c, e.r
+	ts := e.overlappingTables(3 + r.Intn(4))
+	if len(ts) < 2 {
+		return
+	}
+	nl := 2 + r.Intn(2)
+	vs := version.NewStoreVersionSet(e.dir, e.cache, nl)
+	if err := vs.Recover(); err != nil {
+		c.Fail("harness-version-set", err.Error())
+		return
+	}
+	defer func() { _, _ = guard(func() { _ = vs.Destroy() }) }()
+	fv := vs.CreateFamilyVersion(family, version.FamilyID(1))
+	c.Op(fmt.Sprintf("vsnew %d", nl), "ok")
+	c.Branch(fmt.Sprintf("versionset-levels-%d", nl))
+	cur := make([][]*built, nl) // specification: the tables of every level of the current version
+	type logEnt struct {
+		add   bool
+		level int
+		t     *built
+	}
+	commit := func(ents []logEnt) bool {
+		el := version.NewEditLog(version.FamilyID(1))
+		var ws []string
+		for _, en := range ents {
+			if en.add {
+				el.Add(version.CreateNewFile(int32(en.level), version.NewFileMeta(table.FileNumber(en.t.fno), en.t.min, en.t.max, en.t.size)))
+				ws = append(ws, fmt.Sprintf("a:%d:%d:%d:%d", en.level, en.t.fno, en.t.min, en.t.max))
+				var keep []*built
+				for _, x := range cur[en.level] {
+					if x.fno != en.t.fno {
+						keep = append(keep, x)
+					}
+				}
+				cur[en.level] = append(keep, en.t)
+			} else {
+				el.Add(version.NewDeleteFile(int32(en.level), table.FileNumber(en.t.fno)))
+				ws = append(ws, fmt.Sprintf("d:%d:%d", en.level, en.t.fno))
+				var keep []*built
+				for _, x := range cur[en.level] {
+					if x.fno != en.t.fno {
+						keep = append(keep, x)
+					}
+				}
+				cur[en.level] = keep
+			}
+		}
+		var err error
+		p, msg := guard(func() { err = vs.CommitFamilyEditLog(family, el) })
+		switch {
+		case p:
+			c.Op("vlog "+strings.Join(ws, ","), "panic")
+			c.Fail("panic", "CommitFamilyEditLog panicked: "+msg)
+			return false
+		case err != nil:
+			c.Op("vlog "+strings.Join(ws, ","), "err")
+			c.Fail("harness-version-set", err.Error())
+			return false
+		}
+		c.Op("vlog "+strings.Join(ws, ","), "ok")
+		return true
+	}
+	type snapRec struct {
+		id   int
+		snap version.Snapshot
+		lv   [][]*built
+	}
+	var snaps []*snapRec
+	take := func() *snapRec {
+		s := &snapRec{id: len(snaps) + 1, snap: fv.GetSnapshot(), lv: make([][]*built, nl)}
+		for l := range cur {
+			s.lv[l] = append([]*built(nil), cur[l]...)
+		}
+		snaps = append(snaps, s)
+		c.Op(fmt.Sprintf("snap %d", s.id), "ok")
+		return s
+	}
+	defer func() {
+		for _, s := range snaps {
+			_, _ = guard(func() { s.snap.Close() })
+		}
+	}()
+	var keys []uint32
+	for j := 0; j < 5; j++ {
+		t := ts[r.Intn(len(ts))]
+		keys = append(keys, t.entries[r.Intn(len(t.entries))].k)
+	}
+	keys = append(keys, r.Uint32())
+	look := func(s *snapRec, old bool) {
+		c.Op(fmt.Sprintf("vuse %d", s.id), "ok")
+		var all []*built
+		for _, l := range s.lv {
+			all = append(all, l...)
+		}
+		e.lookupAll(s.snap, all, s.lv, keys, old)
+	}
+	// the tables enter the version: level 0 mostly, some directly in an upper level
+	for _, t := range ts {
+		l := 0
+		if r.Intn(4) == 0 {
+			l = r.Intn(nl)
+		}
+		if !commit([]logEnt{{true, l, t}}) {
+			return
+		}
+	}
+	s1 := take()
+	look(s1, false)
+	// compaction-shaped log: the files of one level are replaced by their merge one level up
+	var src int
+	for src = 0; src < nl-1 && len(cur[src]) == 0; src++ {
+	}
+	if src < nl-1 && len(cur[src]) > 0 {
+		inputs := append([]*built(nil), cur[src]...)
+		if len(inputs) > 2 && r.Intn(2) == 0 {
+			inputs = inputs[:2]
+		}
+		seen := map[uint32]bool{}
+		var union []kv
+		for _, t := range inputs {
+			for _, en := range t.entries {
+				if !seen[en.k] {
+					seen[en.k] = true
+					union = append(union, en)
+				}
+			}
+		}
+		sort.Slice(union, func(i, j int) bool { return union[i].k < union[j].k })
+		var items []item
+		for _, en := range union {
+			items = append(items, item{k: en.k, chunks: []val{litVal(en.v)}})
+		}
+		out := e.buildTable(40+len(snaps), items)
+		if out == nil || !out.closed {
+			return
+		}
+		var ents []logEnt
+		for _, t := range inputs {
+			ents = append(ents, logEnt{false, src, t})
+		}
+		ents = append(ents, logEnt{true, src + 1, out})
+		if !commit(ents) {
+			return
+		}
+		c.Branch("compaction-shaped-log")
+		s2 := take()
+		look(s1, true) // the OLD snapshot still has the compaction inputs
+		look(s2, false)
+	}
+	// move log: one file goes one level up, delete first
+	for l := 0; l < nl-1; l++ {
+		if len(cur[l]) > 0 {
+			t := cur[l][r.Intn(len(cur[l]))]
+			if !commit([]logEnt{{false, l, t}, {true, l + 1, t}}) {
+				return
+			}
+			c.Branch("move-log")
+			s3 := take()
+			for _, s := range snaps[:len(snaps)-1] {
+				look(s, true)
+			}
+			look(s3, false)
+			break
+		}
+	}
+	c.NonTrivial()
+}
+
+// failWriter fails (atomically: nothing is written) the failAt-th Write it sees.
+type failWriter struct {
+	bufioutil.BufioWriter
+	n, failAt int
+}
+
+func (w *failWriter) Write(p []byte) (int, error) {
+	w.n++
+	if w.n == w.failAt {
+		return 0, errors.New("verif: injected write failure")
+	}
+	return w.BufioWriter.Write(p)
+}
+
+// caseIOFail: the builder's writer fails on an Add or on one of the three writes of Close. The
+// C15 statement says nothing about I/O errors; checked: the failing call reports the error, the
+// builder's count/min/max do not move, and model and code agree on what the left-over file is.
+func (e *env) caseIOFail() {
+	c, r := e.c, e.r
+	c.Branch("io-failure")
+	n := 2 + r.Intn(6)
+	failAt := 1 + r.Intn(n+3) // 1..n: that Add; n+1..n+3: a write of Close
+	var fw *failWriter
+	restore := table.VerifC01SetNewWriter(func(fileName string) (bufioutil.BufioWriter, error) {
+		w, err := bufioutil.NewBufioStreamWriter(fileName)
+		if err != nil {
+			return nil, err
+		}
+		fw = &failWriter{BufioWriter: w, failAt: failAt}
+		return fw, nil
+	})
+	b, err := table.NewStoreBuilder(table.FileNumber(1), e.path(1))
+	restore()
+	if err != nil || fw == nil {
+		c.Fail("harness-new-builder", fmt.Sprint(err))
+		return
+	}
+	c.Op("new", "ok")
+	key := uint32(r.Intn(1000))
+	for i := 1; i <= n; i++ {
+		key += 1 + uint32(r.Intn(70000))
+		v := mkVal(r, r.Intn(40))
+		before := status(b)
+		var aerr error
+		p, _ := guard(func() { aerr = b.Add(key, v.b) })
+		if p {
+			c.Op(fmt.Sprintf("add %d %s", key, v.spec), "panic")
+			c.Fail("panic", "Add panicked on a failing writer")
+			return
+		}
+		if i == failAt {
+			c.Branch("io-failure-add")
+			out := "ok-unexpected"
+			if aerr != nil {
+				out = "err"
+			}
+			c.Op(fmt.Sprintf("addfail %d %s", key, v.spec), out)
+			if aerr == nil {
+				c.Fail("write-error-swallowed", fmt.Sprintf("Add(%d) returned nil although the writer failed", key))
+			}
+			if status(b) != before {
+				c.Fail("failed-add-registers-key", fmt.Sprintf("a failed Add(%d) changed the builder: %s -> %s", key, before, status(b)))
+			}
+			_ = b.Abandon()
+			return
+		}
+		c.Op(fmt.Sprintf("add %d %s", key, v.spec), status(b))
+	}
+	which := failAt - n - 1
+	c.Branch(fmt.Sprintf("io-failure-close-write-%d", which))
+	var cerr error
+	p, _ := guard(func() { cerr = b.Close() })
+	op := fmt.Sprintf("closefail 1 %d", which)
+	switch {
+	case p:
+		c.Op(op, "panic")
+		c.Fail("panic", "Close panicked on a failing writer")
+		return
+	case cerr == nil:
+		c.Op(op, "ok-unexpected")
+		c.Fail("write-error-swallowed", "Close returned nil although one of its writes failed")
+		return
+	}
+	c.Op(op, "err")
+	c.NonTrivial()
+	// what is on disk now is not a table (no oracle: bytes could parse by accident; model and code must agree)
+	e.openTable(&built{fno: 1})
 }
 
 // caseMalformed: use of the builder outside the stream-writer protocol (abandoned Prepare,
@@ -1426,12 +1769,18 @@ func (a area) Run(c *core.Ctx) error {
 				case x < 72:
 					c.Branch("kind-merge")
 					e.caseMerge()
-				case x < 92:
+				case x < 84:
 					c.Branch("kind-version")
 					e.caseVersion()
-				case x < 98:
+				case x < 92:
+					c.Branch("kind-versionset")
+					e.caseVersionSet()
+				case x < 96:
 					c.Branch("kind-malformed")
 					e.caseMalformed()
+				case x < 98:
+					c.Branch("kind-io-failure")
+					e.caseIOFail()
 				default:
 					c.Branch("kind-write-buffer")
 					e.caseWriteBuffer()
